@@ -511,6 +511,16 @@ pub fn broken_invariants(program: &Term<Program>) -> Vec<Broken> {
     out
 }
 
+/// Panic site `file:line` of a caught panic message, with the path made relative to the repository
+/// (so that the violation class does not depend on where the tree under test is checked out).
+pub fn site(panic_msg: &str) -> String {
+    let s = mcx::panic_site(panic_msg);
+    match s.find("src/cwe_checker_lib/") {
+        Some(i) => s[i..].to_string(),
+        None => s,
+    }
+}
+
 /// Block-shape precondition of the CFG builder's documentation: 0, 1 or 2 jumps; with two jumps the first is
 /// conditional and the second an unconditional direct/indirect jump.
 pub fn block_shapes_ok(program: &Term<Program>) -> bool {
